@@ -1,5 +1,5 @@
 /*@harness
-{"tier":"quick","mode":"unbounded","tus":["src/comm.c"],"enforce":"comm.c:next_cmd_in_buf",
+{"tier":"quick","mode":"unbounded","tus":["src/comm.c"],"stub_out":["add_message","add_vmessage","flush_message"],"enforce":"comm.c:next_cmd_in_buf",
  "flags":["--bounds-check","--pointer-check"],"timeout":900,
  "expect":["next_cmd_in_buf.postcondition","next_cmd_in_buf.loop_invariant_step","next_cmd_in_buf.pointer_dereference"],
  "native":{}}
